@@ -4,6 +4,7 @@
 #include "of_openfec_api.h"
 #include "applis/eperftool/blocking_struct.h"
 #include <fenv.h>
+#include <errno.h>
 #include <pthread.h>
 
 static uint64_t g_checked;
@@ -17,6 +18,8 @@ static void one(uint32_t B, uint32_t L, uint32_t E, int announce, int unique)
 	one_mode(B, L, E, announce, unique, FE_TONEAREST);
 	int m = modes[(B * 31u + L * 7u + E) % 3];
 	fesetround(m); one_mode(B, L, E, 0, 0, m); fesetround(FE_TONEAREST);
+	/* and once with a stale error code left in errno by something the caller did earlier (nothing obliges a program to clear it) */
+	errno = ((B + L + E) & 1) ? ERANGE : EDOM; one_mode(B, L, E, 0, 0, FE_TONEAREST); errno = 0;
 }
 static void one_mode(uint32_t B, uint32_t L, uint32_t E, int announce, int unique, int mode)
 {
